@@ -15,6 +15,7 @@ RULE = (
     "(drop a needed row, gap, shift, float ids) and must be rejected; 8% of the cases are names x doses designs of 1..300 names and 1..300 doses (condition counts across 2**7, 2**8, 2**15, 2**16; up to 300 samples / 260 plates), encoded plainly or under the full design's mapping; plain screens additionally go through up to three in-place plate merges (handles taken once). Non-trivial = both control kinds (by name and by "
     "dose) occur in one column, or arity != 2, or a strict-superset mapping is supplied, or a negative case, or a design case. distinct = distinct case JSON."
     ' A quarter of the plain cases are built from read-only arrays (an in-place merge may then be refused; the screen is re-checked).'
+    ' Superset cases also build the one-plate-per-sample screen from ONE array object used as sample names and plate names.'
 )
 ASSUMPTIONS = [
     "names contain no NUL character (numpy's '<U' dtype strips trailing NULs and pandas' string hashing truncates at NUL, so such names are not constructible screen inputs); no surrogates",
@@ -301,6 +302,18 @@ def check_case(case):
         k = len(sc["rows"])
         require(np.array_equal(np.asarray(s.treatment_ids), np.asarray(sup.treatment_ids)[:k]), "superset.same_ids", "sub-screen treatment ids differ from the superset's ids for the same rows")
         require(np.array_equal(np.asarray(s.sample_ids), np.asarray(sup.sample_ids)[:k]), "superset.same_sample_ids", "sub-screen sample ids differ from the superset's")
+        if sc["rows"]:
+            # one plate per sample, named after it: the caller hands ONE array for both the sample names and the plate names
+            # (and, separately, one array for both treatment columns' worth of doses is not possible - they are one 2-d array anyway)
+            from batchie.data import Screen
+
+            tn_, td_, sn_, _pn, _ob, _mk = S.arrays(sc)
+            one = Screen(treatment_names=tn_, treatment_doses=td_, sample_names=sn_, plate_names=sn_, control_treatment_name=sc["control"], treatment_mapping=tm, sample_mapping=sm)
+            sc_one = dict(sc, rows=[dict(r, p=r["s"]) for r in sc["rows"]], observed=[])
+            try:
+                _check_screen(one, sc_one, supplied_t=tm, supplied_s=sm)
+            except Violation as v:
+                raise Violation("shared_name_array." + v.sub_check, "sample names and plate names given as one and the same array: " + v.message)
         return {"nontrivial": strict or both or sc["arity"] != 2, "labels": labels}
 
     # negative cases: a corrupted mapping must be rejected with ValueError
